@@ -383,10 +383,20 @@ def rule_walkers(F, rep, rid, names, floor, what):
                   '(pruning a branch - e.g. below an imported or an empty component - silently skips everything encapsulated under it)' % what)
     n = 0
     seen = set()
-    for g, loop, rec in tree_walkers(F):
-        if g.name not in names or g.j.get('ret') == 'bool' or g.name in WALK_SEARCHES:
+    walkers = list(tree_walkers(F))
+    todo = [(g, loop, rec, g.name) for g, loop, rec in walkers if g.name in names and g.j.get('ret') != 'bool' and g.name not in WALK_SEARCHES]
+    # a named walker that has become a thin wrapper (`collect(model, component, result); return result;`) is judged through the walker it hands over to
+    for nm in names:
+        if any(t[3] == nm for t in todo):
             continue
-        seen.add(g.name)
+        for w in [g for g in F.funcs.values() if g.name == nm and '/src/' in g.file]:
+            for c in w.walk():
+                if c.get('k') == 'Call' and not c.get('opc') and not enclosing_conditions(w, c) and w.enclosing_lambda(c) is None:
+                    for g, loop, rec in walkers:
+                        if g.key in F.callee_keys(c) and g.file == w.file and g.j.get('ret') != 'bool' and not any(t[0] is g for t in todo):
+                            todo.append((g, loop, rec, nm))
+    for g, loop, rec, label in todo:
+        seen.add(label)
         n += 1
         first = min(c.get('l', 0) for c in rec)
         outer = [render(cnd)[:50] for cnd, br, st in enclosing_conditions(g, loop)]
@@ -400,7 +410,7 @@ def rule_walkers(F, rep, rid, names, floor, what):
             why.append('the recursive call is made only under `%s`' % '`, `'.join(inner))
         if exits:
             why.append('a `%s` at line %s can be taken before the descent' % (exits[0]['k'].lower(), exits[0].get('l')))
-        rep.check(not why, rid, '%s|descends into every child' % g.short.split('::')[-1], g.where(loop), '%s: %s' % (g.short, '; '.join(why)), 'unconditional descent')
+        rep.check(not why, rid, '%s|descends into every child' % label, g.where(loop), '%s: %s' % (g.short, '; '.join(why)), 'unconditional descent' + ('' if label == g.name else ' (in %s, to which %s hands over)' % (g.name, label)))
     missing = set(names) - seen
     for nm in sorted(missing):
         still = [g for g in F.funcs.values() if g.name == nm and '/src/' in g.file]
